@@ -50,6 +50,31 @@ def build_module(shared):
                 m.add_func([I32, t], [t], [], [('local.get', 0), ('local.get', 1), (n, al, 0)], export=ex)
             names.append((t, w, op, n, ex))
         # a variant with a static offset, and fence
+    # the same flavours in context: operands at stack heights 2.. above an i64 and an f64 slot, a static offset, result consumed by an
+    # enclosing expression (exercises the translator's operand-slot selection and offset emission for every atomic opcode)
+    ctx = []
+    CTX_OFF = 0x1010
+    for t, w in FAMILIES:
+        al = {8: 0, 16: 1, 32: 2, 64: 3}[w]
+        ext = [('i64.extend_i32_u',)] if t == 'i32' else []
+        pre = [('i64.const', 0x5a5a00000000a5a5), ('f64.const', 0x4000000000000000)]
+        post = ext + [('local.set', None), ('drop',), ('local.get', None), ('i64.xor',)]
+        for op in ('load', 'store', 'add', 'sub', 'and', 'or', 'xor', 'xchg', 'cmpxchg'):
+            n = opname(t, w, op)
+            ex = 'ctx_' + n.replace('.', '_')
+            if op == 'load':
+                ps, core = [I32], [('local.get', 0), (n, al, CTX_OFF)]
+            elif op == 'store':
+                ps, core = [I32, t], [('local.get', 0), ('local.get', 1), (n, al, CTX_OFF), ('i64.const', 77)]
+            elif op == 'cmpxchg':
+                ps, core = [I32, t, t], [('local.get', 0), ('local.get', 1), ('local.get', 2), (n, al, CTX_OFF)]
+            else:
+                ps, core = [I32, t], [('local.get', 0), ('local.get', 1), (n, al, CTX_OFF)]
+            tmp = len(ps)
+            body = pre + core + ([] if op == 'store' else ext) + [('local.set', tmp), ('drop',), ('local.get', tmp), ('i64.xor',)]
+            m.add_func(ps, [I64], [(1, I64)], body, export=ex)
+            ctx.append((t, w, op, n, ex))
+    m.ctx_names = ctx
     m.add_func([], [], [], [('atomic.fence',)], export='fence')
     m.add_func([I32, I32], [I32], [], [('local.get', 0), ('local.get', 1), ('i32.atomic.rmw.add', 2, 16)], export='add_off16')
     return m, names
@@ -126,6 +151,24 @@ def sequential(chk, w2c2, quick):
             lines.append('x 0 %d %d %d' % (fk, aset, vs))
         lines.append('w 0 0 0 256')
         lines.append('w 0 0 %d 256' % (65536 - 256))
+    for t, w, op, n, ex in m.ctx_names:
+        by = w // 8
+        aset = defset([0, by, 128 + 8 - by, 256 - by])
+        vs = v32 if t == 'i32' else v64
+        fk = plan.fk(ex)
+        if op == 'load':
+            lines.append('x 0 %d %d' % (fk, aset))
+        elif op == 'cmpxchg':
+            lines.append('x 0 %d %d %d %d' % (fk, aset, vs, vs))
+            lfk = plan.fk('ctx_' + opname(t, w, 'load').replace('.', '_'))
+            sfk = plan.fk('ctx_' + opname(t, w, 'store').replace('.', '_'))
+            for v in (0x11, 0xfff1, 0xfffffff1, 0xfffffffffffffff1):
+                vv = v & ((1 << (32 if t == 'i32' else 64)) - 1)
+                lines.append('c 0 %d 0x0 %s' % (sfk, hex(vv)))
+                lines.append('c 0 %d 0x0 %s %s' % (fk, hex(vv & ((1 << w) - 1)), hex(0xabcdef0123456789 & ((1 << (32 if t == 'i32' else 64)) - 1))))
+        else:
+            lines.append('x 0 %d %d %d' % (fk, aset, vs))
+        lines.append('w 0 0 %d 512' % 0x1000)
     lines.append('c 0 %d 0x10 0x5' % plan.fk('add_off16'))
     lines.append('c 0 %d' % plan.fk('fence'))
     lines.append('m 0 0')
@@ -161,6 +204,7 @@ def sequential(chk, w2c2, quick):
             chk.violation('C16:sequential:%s' % name, 'build %s line %d: reference "%s" vs compiled "%s"' % (tag, i, ra[:120], rb[:120]), files)
             break
     chk.observe('sequential_flavours', len(names), 'set')
+    chk.observe('sequential_flavours_in_context', len(m.ctx_names), 'set')
     chk.sample({'part': 'a', 'lines': ref[1:4]})
 
 
